@@ -1305,7 +1305,11 @@ fn compile_sources_with_generics_preserved(
         ));
         if c.name.name == PStr::MAIN_TYPE
           && c.members.members.iter().any(|source::ClassMemberDefinition { decl, .. }| {
+            // An entry point is called without a receiver and is a root of generics specialization:
+            // it must be a static function that mentions no type parameter (a method sees the
+            // class type parameters as well).
             decl.name.name == PStr::MAIN_FN
+              && !decl.is_method
               && decl.parameters.parameters.is_empty()
               && decl.type_parameters.is_none()
           })
